@@ -1,4 +1,5 @@
 import CandidModel.Proofs.SubSound
+import CandidModel.Proofs.SubComplete
 /-
   C05 — Subtype and upgrade checks decide the spec relation, independent of order and history.
   Structural facts about the specification relation, and soundness of the checking algorithm (memo table,
@@ -76,5 +77,28 @@ theorem checker_sound_sequence (env : Env) (hse : SafeEnv env) (n : Nat) :
     | no => rw [hs] at hrun; simp at hrun
     | out => rw [hs] at hrun; simp at hrun
     | panic s => rw [hs] at hrun; simp at hrun
+
+/-- **The checker never rejects a pair of the specification relation**: on types whose names resolve it answers
+"yes" or runs out of its depth budget — never "no" — whatever the memo it starts from (any earlier checks, any
+failed probes) and whatever the budget. -/
+theorem checker_never_rejects_wrongly (env : Env) (hse : SafeEnv env) (n : Nat) (g : Gamma) (a b : Ty)
+    (ha : safeTy env a = true) (hb : safeTy env b = true) (h : Sub env a b) : subAlg env n g a b ≠ .no :=
+  subAlg_never_rejects env hse n g a b ha hb h
+
+/-- **Both definite answers are right**: from a justified memo, "yes" means the pair is in the relation and "no"
+means it is not.  (What is left open is only whether the depth budget suffices.) -/
+theorem definite_answers_decide_the_relation (env : Env) (hse : SafeEnv env) (n : Nat) (g : Gamma) (a b : Ty)
+    (ha : safeTy env a = true) (hb : safeTy env b = true) (hj : Justified env g) :
+    (∀ g', subAlg env n g a b = .yes g' → Sub env a b) ∧ (subAlg env n g a b = .no → ¬ Sub env a b) :=
+  ⟨fun g' h => (subAlg_sound_history env hse n g g' a b ha hb hj h).1,
+   fun h hs => subAlg_never_rejects env hse n g a b ha hb hs h⟩
+
+/-- **Independent of order, names of the memo, earlier successes and failed probes**: two runs of the checker on
+the same pair — with different memos, different budgets, after different histories — never give contradicting
+definite answers. -/
+theorem verdicts_never_contradict (env : Env) (hse : SafeEnv env) (n1 n2 : Nat) (g1 g2 g' : Gamma) (a b : Ty)
+    (ha : safeTy env a = true) (hb : safeTy env b = true) (hj1 : Justified env g1)
+    (h1 : subAlg env n1 g1 a b = .yes g') : subAlg env n2 g2 a b ≠ .no :=
+  subAlg_never_rejects env hse n2 g2 a b ha hb (subAlg_sound_history env hse n1 g1 g' a b ha hb hj1 h1).1
 
 end Candid.Props.C05
